@@ -239,6 +239,12 @@ def load_fragment_findings(ck):
         pass
 
 
+def pad_segment_signature(ci):
+    """streaming compaction of ordered files in which some chunk has a non-final segment of another size than the current
+    max-rows-per-segment (or a segment longer than it): files written before max-rows-per-segment was changed"""
+    return bool(ci.get("illformed")) and ci.get("op") in ("level0", "full") and ci.get("mode") == "stream"
+
+
 def main(ck):
     load_fragment_findings(ck)
     ck.assumptions += [
@@ -265,6 +271,7 @@ def main(ck):
     n = 24 if ck.tier == "quick" else 400
     ncol, nseg = (60, 16) if ck.tier == "quick" else (1500, 300)
     nfault = 12 if ck.tier == "quick" else 200
+    nchg = 16 if ck.tier == "quick" else 300
     if ck.replay:
         rp = json.load(open(ck.replay))
         rc, out = ck.run([binp, str(int(rp.get("case", 0)) + 1)], timeout=3000, env={"VERIF_SEED": str(rp.get("seed", ck.seed)),
@@ -280,13 +287,14 @@ def main(ck):
             insts = insts or [{"case": -1, "op": "none", "images": [], "steps": [], "hist": ""}]
         if rp.get("colcase") is not None:
             cc = int(rp["colcase"])
-            a = [binp, "0", str(cc + 1), "0"] if cc < 100000 else [binp, "0", "0", str(cc - 100000 + 1)]
+            a = [binp, "0", str(cc + 1), "0"] if cc < 100000 else ([binp, "0", "0", str(cc - 100000 + 1)] if cc < 200000 else
+                                                                   [binp, "0", "0", "0", "0", str(cc - 200000 + 1)])
             rc, out = ck.run(a, timeout=3000, env={"VERIF_SEED": str(rp.get("seed", ck.seed)), "VERIF_TIER": rp.get("tier", ck.tier)})
             cols = [json.loads(l) for l in out.splitlines() if l.startswith('{"colcase"')]
             cols = [c for c in cols if c["colcase"] == cc]
             insts = insts or [{"case": -1, "op": "none", "images": [], "steps": [], "hist": ""}]
     else:
-        rc, out = ck.run([binp, str(n), str(ncol), str(nseg), str(nfault)], timeout=3000)
+        rc, out = ck.run([binp, str(n), str(ncol), str(nseg), str(nfault), str(nchg)], timeout=3000)
         insts = [json.loads(l) for l in out.splitlines() if l.startswith('{"case"')]
         cols = [json.loads(l) for l in out.splitlines() if l.startswith('{"colcase"')]
         faults = [json.loads(l) for l in out.splitlines() if l.startswith('{"faultcase"')]
@@ -326,10 +334,15 @@ def main(ck):
     col_viol = 0
     for ci in cols:
         sig = stream_split_signature(ci)
+        sig2 = pad_segment_signature(ci)
         for f in ci.get("fail") or []:
             if sig and ck.match_finding("C03-stream-split"):
                 ck.known_finding("C03-stream-split", "streaming compaction of a series with more segments than max-segment-limit "
                                                      "loses / corrupts rows of the series (the chunk must be split over several files)")
+                col_known += 1
+            elif sig2 and ck.match_finding("C03-pad-segment-size"):
+                ck.known_finding("C03-pad-segment-size", "streaming compaction of files written under another max-rows-per-segment pads an "
+                                                         "absent column with the wrong number of nils (values shift to other timestamps)")
                 col_known += 1
             elif col_viol < 3:
                 col_viol += 1
@@ -338,6 +351,7 @@ def main(ck):
                               "process_died": ci.get("died"), "panic": ci.get("panic"),
                               "explanation": "history: O<seq>/U<seq>(s<series>:<rows>:<fields present in the chunk>) = ordered / out-of-order file, then the operations"})
             break
+        sig = sig or sig2
         if ci.get("died") and not ci.get("fail"):
             if sig:
                 col_died_known += 1      # observation (see NOTES): the process dies, the files are untouched after restart
@@ -393,6 +407,8 @@ def main(ck):
     for ci in cols:
         if ci.get("seglimit") or ci.get("died") or ci.get("fail") or ci["op"] == "merge":
             continue
+        if ci.get("illformed") and ci.get("mode") != "stream":
+            continue    # the non-streaming path re-cuts every record; the code-shaped model is the streaming compactor
         for ser in ci.get("series") or []:
             if ser.get("in"):
                 colmod.append((ci, ser))
@@ -407,13 +423,18 @@ def main(ck):
         cfiles.append(("c03col%d" % (i // cshard), txt))
     cres = ck.coq_eval_many(cfiles) if ok and cfiles else []
     colmism = []
+    col_current = 0
     for idx, (rc2, o) in enumerate(cres):
         m = re.search(r"M\s*=\s*(.*?)\s*:\s*list", o.replace("%nat", ""), re.S)
         if rc2 != 0 or not m:
             ck.broken.append("column model evaluation failed on shard %d: %s" % (idx, o[-400:]))
             continue
-        for a, b in re.findall(r"\((\d+),\s*(\d+)\)", m.group(1)):
-            colmism.append((colmod[idx * cshard + int(a)], int(b)))
+        for a, b, c in re.findall(r"\((\d+),\s*(\d+),\s*(\d+)\)", m.group(1)):
+            ci, ser = colmod[idx * cshard + int(a)]
+            if int(c) == 0 and pad_segment_signature(ci) and ck.match_finding("C03-pad-segment-size"):
+                col_current += 1     # the tree pads by counter arithmetic (today's code) on a distinguishing input
+            else:
+                colmism.append(((ci, ser), int(b)))
     if colmism and not oracle and not col_viol:
         (ci, ser), code = colmism[0]
         ck.broken.append("correspondence C03 column model/implementation differs: column case %d op %s series %d: %s" % (
@@ -472,7 +493,7 @@ def main(ck):
     colhist = {}
     col_nontriv = set()
     for ci in cols:
-        k = "%s/%s%s" % (ci["op"], ci["mode"], "/seglimit" if ci.get("seglimit") else "")
+        k = "%s/%s%s%s" % (ci["op"], ci["mode"], "/seglimit" if ci.get("seglimit") else "", "/segchange" if ci.get("segchange") else "")
         colhist[k] = colhist.get(k, 0) + 1
     for ci, ser in colmod:
         multi = any(len(c["t"]) > 1 and any(f not in c["c"] for f in ser["fields"]) for c in ser["in"])
@@ -491,7 +512,8 @@ def main(ck):
     ck.cov["distinct_nontrivial"] = len(nontriv) + len(col_nontriv)
     ck.cov["column_cases"] = {"operations": len(cols), "histogram": colhist, "series_compared_with_column_model": len(colmod),
                               "series_with_a_multi_segment_chunk_lacking_a_column": len(col_nontriv),
-                              "model_mismatches": len(colmism), "known_finding_failures": col_known,
+                              "model_mismatches": len(colmism), "series_matching_counter_padding_only": col_current,
+                              "known_finding_failures": col_known,
                               "process_deaths_inside_known_finding_signature": col_died_known}
     ck.cov["traces_validated_against_impl"] = (sum(len(i["images"]) for i in mod) - len([m for m in mism if m[2] >= 20])) if ok else 0
     ck.cov["rule"] = ("evaluation = one crash image (copy of the shard directory taken between two file-system mutations of a real "
